@@ -340,6 +340,26 @@ func c14Main(r *engine.Run) {
 	}) {
 		r.Bound(fmt.Sprintf("%d lattice geometries × (4 measures vs exact + 20 relations)", len(geoms)))
 	}
+	if r.Thorough() {
+		// 4×4 lattice: every simple polygon of ≤7 vertices, alone and (≤5 vertices) as the hole of a
+		// frame, under a ring start/direction that depends on the index
+		p4 := universe.SimplePolygons(4, 7)
+		frame := []universe.LPt{{-1, -1}, {4, -1}, {4, 4}, {-1, 4}, {-1, -1}}
+		r.States.Add(int64(len(p4)))
+		if r.Parallel(len(p4), func(i int) {
+			ring := rotateRing(p4[i], i%(len(p4[i])-1), i%2 == 1)
+			c14Check(r, id.Polygon(ring).AsGeometry(), "4×4 simple polygon")
+			if len(p4[i])-1 <= 5 {
+				g := id.Polygon(rotateRing(frame, i%4, i%3 == 0), ring).AsGeometry()
+				c14Check(r, g, "frame with a 4×4 simple polygon as hole")
+				if i%7 == 0 {
+					c14Relations(r, g, "frame with a 4×4 simple polygon as hole")
+				}
+			}
+		}) {
+			r.Bound(fmt.Sprintf("4×4 lattice: all %d simple polygons of ≤7 vertices, and every one of ≤5 vertices as the hole of a frame", len(p4)))
+		}
+	}
 	// affine images of the alphabet (exact and general-position float)
 	for _, t := range append(append([]universe.Affine{}, c02ExactAffines...), floatAffines()...) {
 		ops := BuildAlphabet(t, 0).All()
